@@ -270,11 +270,14 @@ def toy_der_ok():
         ok = True
         # two probes: an index built lazily on the *first* lookup would find
         # the first probe curve but not one appended afterwards
-        for mc in mcurves.toy()[:2]:
+        for n_, mc in enumerate(mcurves.toy()[:2]):
             c = fresh_lib_curve(mc)
+            # a probe-only OID, so that no curve a run has registered (or the
+            # library knows) can answer for it
+            c.oid = tuple(mc.oid) + (424242, n_)
             try:
                 lc.curves.append(c)
-                ok = ok and (lc.find_curve(tuple(mc.oid)) is c)
+                ok = ok and (lc.find_curve(c.oid) is c)
             except Exception:
                 ok = False
             finally:
